@@ -11,9 +11,10 @@ H = os.path.join(VERIF, "harness")
 
 
 def x86_cfgs(tier):
+    # "nopic": the library built position-dependent - the x86-64 files test __PIC__ and then are a different text
     if tier == "quick":
-        return [Cfg("asm", 4, 2, 4), Cfg("asm", 3, 3, 3)]
-    return [Cfg("asm", 4, 2, 4), Cfg("asm", 3, 3, 3), Cfg("asm", 2, 1, 2), Cfg("asm", 4, 4, 4)]
+        return [Cfg("asm", 4, 2, 4), Cfg("asm", 3, 3, 3), Cfg("asm", 4, 2, 4, instr="nopic"), Cfg("asm", 2, 2, 4)]
+    return [Cfg("asm", 4, 2, 4), Cfg("asm", 3, 3, 3), Cfg("asm", 2, 1, 2), Cfg("asm", 4, 4, 4), Cfg("asm", 4, 2, 4, instr="nopic"), Cfg("asm", 3, 3, 3, instr="nopic"), Cfg("asm", 2, 2, 4), Cfg("asm", 3, 1, 4), Cfg("asm", 2, 2, 3)]
 
 
 def x86_bins(cfgs):
